@@ -41,6 +41,8 @@ type RunConfig struct {
 	PCommitSubmit float64 `json:"p_commit_submit"`
 	Quorumless    bool    `json:"quorumless"`
 	Maintenance   bool    `json:"maintenance,omitempty"`
+	ChattyPair    bool    `json:"chatty_pair,omitempty"`
+	PStoreErr     float64 `json:"p_store_err,omitempty"`
 	NilTx         bool    `json:"nil_tx"`
 	PAsync        float64 `json:"p_async"`
 	PReFF         float64 `json:"p_reff"`
@@ -105,6 +107,9 @@ type genState struct {
 	txCounter  int
 	silentNow  int
 	partActive bool
+	// chatty pair: a burst of exchanges between two validators only
+	burstLeft      int
+	burstA, burstB int
 }
 
 func (c *Cluster) validatorsAlive() []*SimNode {
@@ -200,6 +205,31 @@ func (c *Cluster) genStep(g *genState) *Step {
 	for _, n := range c.nodes {
 		if n.running() && !n.silent && !n.isObserver && n.state() != _state.Shutdown {
 			alive = append(alive, n)
+		}
+	}
+	if cfg.ChattyPair && len(alive) >= 2 {
+		// two validators exchange syncs for a while and nobody else takes part:
+		// without a quorum the round does not advance, each of them piles up a
+		// dozen events inside one round (later frames then hold roots without any
+		// witness for these creators)
+		if g.burstLeft == 0 && r.Bool(0.025) {
+			g.burstLeft = r.Range(12, 36)
+			g.burstA = alive[r.Intn(len(alive))].idx
+			g.burstB = alive[r.Intn(len(alive))].idx
+		}
+		if g.burstLeft > 0 {
+			g.burstLeft--
+			a, b := c.nodeAt(g.burstA), c.nodeAt(g.burstB)
+			if g.burstLeft%2 == 1 {
+				a, b = b, a
+			}
+			if a != nil && b != nil && a != b && a.running() && b.running() && !a.silent && !b.silent && a.state() == _state.Babbling && findPeer(a, b) != nil {
+				if r.Bool(0.2) {
+					return &Step{Op: "submit", A: a.idx, Tx: c.genTx(g)}
+				}
+				return &Step{Op: "tick", A: a.idx, B: b.idx}
+			}
+			g.burstLeft = 0
 		}
 	}
 	x := r.Float()
